@@ -287,12 +287,16 @@ def rand_printf(rng):
             d = rng.choice(PRINTF_DIRECTIVES)
             w = rng.choice(["", "", "5", "-5", "0", "-", "20", "-12", " ", "99999999999999999999", "300", "65535", "65536", "-65536", "70000", "100000",
                             # characters that are numeric in Unicode but not ASCII digits, where a width may stand
-                            "²", "٣", "-½", "1²", "①", "٣٣", "５", "1５", "-٣", " ²"])
+                            "²", "٣", "-½", "1²", "①", "٣٣", "５", "1５", "-٣", " ²",
+                            "0", "'"])
             out.append("%" + w + d)
         elif r < 0.7:
             out.append(rng.choice(["\\n", "\\t", "\\0", "\\\\", "\\101", "\\a", "\\c", "\\é", "\\", "\\9", "\\18", "\\777"]))
         elif r < 0.8:
-            out.append(rng.choice(["%", "%%", "%é", "%-", "%5", "%A", "%T", "%Cé", "%²", "%٣", "%-①", "%1½"]))
+            out.append(rng.choice(["%", "%%", "%é", "%-", "%5", "%A", "%T", "%Cé", "%²", "%٣", "%-①", "%1½",
+                                   # the printf(3) flags this implementation does not know (kept rare: a parser that loops on them costs
+                                   # minutes of watchdog time per occurrence)
+                                   "%+d", "%#m"] if rng.random() < 0.2 else ["%", "%%", "%-"]))
         else:
             out.append(rng.choice(["x", " ", "é", "日本", ":", "/"]))
     return "".join(out)
@@ -469,6 +473,9 @@ def total_worker(job):
                         st.add("primaries_seen", t)
                 if r.special == "SKIP":
                     st.inc("skipped_non_utf8_inproc")
+                    continue
+                if r.special == "NOTRUN":
+                    st.inc("not_run_after_four_confirmed_hangs_in_the_same_batch")
                     continue
                 if r.special or r.panic:
                     st.violate("panic" if r.panic and not r.special else ("hang" if r.special == "HANG" else "crash"),
